@@ -152,3 +152,86 @@ func (t *builtinArgTable) guards(fn *ssa.Function, unwrap *ssa.Call, v ssa.Value
 	}
 	return false
 }
+
+// explicitCheck: F_Validate contains `args[k].Type() != <want>Type` (constant k) whose true edge returns an error, and
+// the Validate call's nil edge dominates the Unwrap of args[k] in F.
+func (t *builtinArgTable) explicitCheck(fn *ssa.Function, unwrap *ssa.Call, v ssa.Value, want string) bool {
+	if fn.Pkg == nil {
+		return false
+	}
+	rel := strings.TrimPrefix(fn.Pkg.Pkg.Path(), core.ModPath+"/")
+	top := fn
+	for top.Parent() != nil {
+		top = top.Parent()
+	}
+	val := t.validate[rel+"."+top.Name()]
+	if val == nil {
+		return false
+	}
+	ld, ok := v.(*ssa.UnOp)
+	if !ok || ld.Op != token.MUL {
+		return false
+	}
+	ia, ok := ld.X.(*ssa.IndexAddr)
+	if !ok || len(top.Params) < 2 || ia.X != ssa.Value(top.Params[len(top.Params)-1]) {
+		return false
+	}
+	k, ok := core.ConstIntValue(ia.Index)
+	if !ok {
+		return false
+	}
+	// the check inside Validate
+	found := false
+	for _, b := range val.Blocks {
+		iff, ok := b.Instrs[len(b.Instrs)-1].(*ssa.If)
+		if !ok {
+			continue
+		}
+		bo, ok := iff.Cond.(*ssa.BinOp)
+		if !ok || (bo.Op != token.NEQ && bo.Op != token.EQL) {
+			continue
+		}
+		kc, ok := bo.Y.(*ssa.Const)
+		if !ok || kc.Value == nil || tagName(kc) != want {
+			continue
+		}
+		tc, ok := bo.X.(*ssa.Call)
+		if !ok || !tc.Common().IsInvoke() || tc.Common().Method.Name() != "Type" {
+			continue
+		}
+		l2, ok := tc.Common().Value.(*ssa.UnOp)
+		if !ok {
+			continue
+		}
+		ia2, ok := l2.X.(*ssa.IndexAddr)
+		if !ok || ia2.X != ssa.Value(val.Params[0]) {
+			continue
+		}
+		k2, ok := core.ConstIntValue(ia2.Index)
+		if !ok || k2 != k {
+			continue
+		}
+		failEdge := 0
+		if bo.Op == token.EQL {
+			failEdge = 1
+		}
+		if returnsErrorSoon(b.Succs[failEdge]) {
+			found = true
+		}
+	}
+	if !found {
+		return false
+	}
+	for _, b := range top.Blocks {
+		for _, in := range b.Instrs {
+			call, ok := in.(*ssa.Call)
+			if !ok || call.Common().StaticCallee() != val {
+				continue
+			}
+			if core.DominatedByNil(call, unwrap.Block(), true) {
+				return true
+			}
+		}
+	}
+	return false
+}
